@@ -49,6 +49,21 @@ CHAR_WORDS = ["e\u0301", "\u00e9", "A\u030a", "\u00c5", "\u212b", "\u2126", "\u0
               "\u1112\u1161\u11ab", "\ud55c", "\u00df", "\u0130", "\u0131", "\u017f", "\u03c3\u03c2", "\U00010400",
               "\ufeffbom", "mid\ufeffdle", "a\u200db", "a\u200cb", "so\u00adft", "\u200eltr\u200f", "\U0001f600", "\U0010ffff",
               "a\u00a0b", "a\u2003b", "a\u3000b", "a\u200bb", "\u0301lone"]
+# format-string hazards (round 6): the parser QUOTES pieces of its input in its diagnostics (the whole line, a key=value
+# item, the urgency value), and every formatted output is assembled from attribute values -- text that means something
+# to a formatting mini-language ('%'-formatting, str.format, string.Template, regular-expression replacement templates)
+# must be plain data wherever free text is allowed.  Drawn in every free-text piece of every line class (conc_haz) and
+# in the values of the editing calls.  No ',' ';' '=' '<' '>' '(' ... that would change the CLASS of a line.
+FMT_HAZ = ["%", "%s", "%d", "%(x)s", "%%", "100%", "50% off", "%r and %s", "%5.2f", "%(", "%(x", "% ", "%n", "%c", "%*d", "%s%s%s%s", "x%",
+           "{}", "{0}", "{x}", "{0!r:^10}", "{", "}", "{{}}", "}{", "{0.__class__}", "{1}", "\\", "\\n", "\\x", "\\1", "\\0", "\\N{DASH}",
+           "a\\", "$x", "${HOME}", "$$", "`id`", "%\u00e9", "{\u4e2d}"]
+
+
+def fmt_haz(rng, strip=False):
+    h = rng.choice(FMT_HAZ)
+    return h.strip() if strip else h
+
+
 NAMES = ["Ange\u0301lique A\u030astro\u0308m", "Ang\u00e9lique \u00c5str\u00f6m", "\u212bngstr\u00f6m \u2126", "\u0130stanbul \u0131\u017f",
          "Joe Hacker", "J. R. Hacker", "\"Quoted, Name\"", "Name [team]", "Zoë Müller", "x", "A <B> C", "名前", "O'Neil", "Sole",
          "Joe (work)", "Dr.-Ing. X"]
@@ -151,6 +166,9 @@ def gen_author(rng, stress=False):
     if stress:
         return "%s <%s>" % (gen_text(rng, pick_len(rng, 1, 4097)).replace("<", "(").replace(">", ")"),
                             rng.choice(MAILS) if rng.random() < 0.5 else gen_text(rng, pick_len(rng, 1, 1025)).replace("<", "").replace(">", "").replace(" ", ".") + "@x")
+    if rng.random() < 0.2:
+        return "%s <%s>" % (rng.choice([rng.choice(NAMES) + " " + fmt_haz(rng, True), fmt_haz(rng, True) + " " + rng.choice(NAMES), fmt_haz(rng, True)]),
+                            rng.choice([rng.choice(MAILS), "j" + fmt_haz(rng, True).replace(" ", "") + "@x", fmt_haz(rng, True)]))
     return "%s <%s>" % (rng.choice(NAMES), rng.choice(MAILS))
 
 
@@ -159,6 +177,8 @@ def gen_change_text(rng, stress=False):
         return "  " + rng.choice(["* ", "", "  "]) + gen_text(rng, pick_len(rng, 1, 65537))
     n = rng.randint(1, 5)
     body = " ".join(rng.choice(CHAR_WORDS if rng.random() < 0.3 else WORDS) for _ in range(n))
+    if rng.random() < 0.2:
+        body = rng.choice([body + " " + fmt_haz(rng), fmt_haz(rng) + " " + body, fmt_haz(rng), body.replace(" ", " " + fmt_haz(rng) + " ", 1)])
     lead = rng.choice(["* ", "* ", "  ", "- ", "", "+ ", "\t", "    ", "\ufeff* "])
     s = "  " + lead + body + rng.choice(["", "", "", " ", ".", "\t"])
     if rng.random() < 0.25:          # line-final characters whose UTF-8 form ends in every byte 0x80 .. 0xBF
@@ -204,9 +224,73 @@ def top_text(c):
     return header(c["pkg"], c["ver"], c["dists"], c["urg"], c["comment"], c["pairs"])
 
 
-def conc_line(rng, cls, canonical=False, uid=None, empty_blank=False, stress=False):
+def conc_haz(rng, cls, stress=False):
+    """a line of class cls whose free-text pieces -- in particular the piece a diagnostic about the line would quote
+    (spec: Quoted) -- contain format-string hazards; -> (text, content) like conc_line, or None for the classes
+    without free text (blank lines, the bare trailer, the anchored old-format markers 6 - 8)"""
+    h, h2 = fmt_haz(rng, True), fmt_haz(rng, True)
+    if cls in TOP:
+        c = gen_top_content(rng, False, stress and cls == "TopOK")
+        base = "%s (%s) %s;" % (c["pkg"], c["ver"], c["dists"])
+        if cls == "TopOK":
+            c["comment"] = rng.choice([h, "(" + h + ")", ""])
+            c["pairs"] = [(k, v) for k, v in c["pairs"] if k.lower() != "xs-fmt"] + [("XS-Fmt", h2)]
+            return top_text(c), c
+        if cls == "TopBadKV":           # an item without '=', with an empty value, with an empty key
+            c.update(pairs=[], comment="")
+            if rng.random() < 0.2:      # a valid item holding a hazard next to the invalid one
+                c["pairs"] = [("key", h)]
+                return base + " urgency=%s, key=%s, %s" % (c["urg"], h, h2), c
+            return base + " urgency=%s, %s" % (c["urg"], rng.choice([h, "k" + h, h + "=", "=" + h])), c
+        if cls == "TopDupKey":          # (the report quotes the folded key, which cannot hold a hazard; the values can)
+            c.update(pairs=[("Foo", h2)], comment="")
+            return base + " urgency=%s, Foo=%s, Foo=%s" % (c["urg"], h, h2), c
+        t = base + " urgency=%s" % h    # no hazard is an urgency value: none is [-0-9a-z]+ followed by white space or nothing
+        for k, v in c["pairs"]:
+            t += ", %s=%s" % (k, v)
+        c.update(urg="unknown", comment="")
+        return t, c
+    if cls == "Change":
+        return "  " + rng.choice(["* ", "", "- ", "  "]) + rng.choice([h, "fix " + h, h + " " + h2, "load was " + h + " before"]) + rng.choice(["", "", " "]), None
+    if cls in END:
+        au = "%s <%s>" % (rng.choice([h, "Joe " + h, h + " Hacker"]), rng.choice(["j@x", h2.replace(" ", ""), "j" + h2.replace(" ", "") + "@x"]))
+        da = gen_date(rng, stress)
+        return " -- %s%s%s" % (au, "  " if cls == "EndOK" else " ", da), (au, da)
+    if cls == "Emacs":
+        return rng.choice(["Local variables: ", ";; Local variables: ", "local Variables:"]) + h, None
+    if cls == "Vim":
+        return rng.choice(["vim: ", "vim:", "VIM: set "]) + h, None
+    if cls == "Cvs":
+        return rng.choice(["$Id: %s $", "$Header: /cvs/%s $ x", "$Revision:%s$ tail"]).replace("%s", h), None
+    if cls == "HashComment":
+        return "# " + h, None
+    if cls == "CComment":
+        return "/* " + h + " */" + rng.choice(["", " " + h2]), None
+    if cls == "Old1":
+        return "Mon Jan 1 12:34:56 2001 Joe " + h + " <joe" + h2.replace(" ", "") + "@x>", None
+    if cls == "Old2":
+        return "Tue Feb 29 1996  Joe " + h + " (joe@x)" + rng.choice(["", " " + h2]), None
+    if cls == "Old3":
+        return rng.choice(["pkg (1.0-1) ", "pkg (1.0-1); ", "a+b.c (1:2-3)"]) + h, None
+    if cls == "Old4":
+        return rng.choice(["pkg-1.0 Debian 1 ", "hello 2.1 Debian ", "a.b+c-1 debian x"]) + h, None
+    if cls == "Old5":
+        return "Changes from version " + h + " to " + h2 + ":" + rng.choice(["", " " + h]), None
+    if cls == "Junk":
+        return rng.choice(["", "* ", " * ", "! ", "-- ", " --", "CPU load was ", "see printf(\"", "=== "]) + h + rng.choice(["", "", " before", " " + h2]), None
+    return None
+
+
+def conc_line(rng, cls, canonical=False, uid=None, empty_blank=False, stress=False, haz=None):
     """-> (text, content).  content: dict for header lines (what the block must expose; for the
-    defective header kinds what a tolerant reader keeps), (author, date) for detailed trailers."""
+    defective header kinds what a tolerant reader keeps), (author, date) for detailed trailers.
+    haz: True = the free-text pieces of the line hold format-string hazards (conc_haz), False = never, None = now and then."""
+    if haz is None:
+        haz = not canonical and rng.random() < 0.15
+    if haz and not canonical:
+        r = conc_haz(rng, cls, stress)
+        if r is not None:
+            return r
     if cls == "TopOK":
         c = gen_top_content(rng, canonical, stress)
         return top_text(c), c
@@ -304,12 +388,12 @@ def conc_line(rng, cls, canonical=False, uid=None, empty_blank=False, stress=Fal
     raise AssertionError(cls)
 
 
-def conc_text(rng, classes, canonical=False, empty_blank=False, stress=False):
+def conc_text(rng, classes, canonical=False, empty_blank=False, stress=False, haz=None):
     """empty_blank: blank lines are empty lines (the C04 domain); otherwise also ' ' and a tab;
     stress: payload sizes from the boundary lists of notes/SIZE_STRESS.md"""
     lines, contents = [], []
     for i, c in enumerate(classes):
-        t, k = conc_line(rng, c, canonical, uid=i + 1, empty_blank=empty_blank, stress=stress)
+        t, k = conc_line(rng, c, canonical, uid=i + 1, empty_blank=empty_blank, stress=stress, haz=haz)
         assert not any(ch in t for ch in D1), (c, t)
         lines.append(t)
         contents.append(k)
@@ -562,21 +646,38 @@ def prior_parses(rng, text):
             kw["encoding"] = "latin-1"
             form = rng.choice(("bytes", "bytesio", "list_bytes"))
         out.append((t, form, kw))
+    if rng.random() < 0.4:                  # a FAULT of the caller-supplied input (changelog_faults): the iterator raises, the input
+        import changelog_faults as cf       # ends early (inside a line, inside a multi-byte character) -- anywhere in the history
+        out.insert(rng.randrange(len(out) + 1), (text, "fault", {"_fault": cf.fault_plan(rng)}))
     return out
 
 
-def new_changelog(text, aea, strict, form="str"):
+def new_changelog(text, aea, strict, form="str", cl=None):
     """the text handed to the real code in one of the documented forms (raises what the code raises).
     reuse_str / reuse_list: parse_changelog() on a new object; reused_text / reused_obj: on an object that
     has been used for 1-3 arbitrary earlier parses (prior_parses), the text then arrives in a str/bytes
-    form resp. in a file-object / iterable form."""
+    form resp. in a file-object / iterable form.  cl: an object of the caller's history whose parse_changelog()
+    gets the text (form: one of BASE_TEXT / BASE_LINES)."""
     import random
     from debian.changelog import Changelog
+    if cl is not None:
+        src = make_source(text, form)
+        try:
+            cl.parse_changelog(src, allow_empty_author=aea, strict=strict)
+            return cl
+        finally:
+            close_source(src)
     if form in ("reused_text", "reused_obj"):
         rng = random.Random("%d-%d-%s-%s" % (len(text), sum(map(ord, text[:200])), aea, strict))
         cl = None
         with capture():                        # the earlier parses are not judged; their warnings stay in here
             for t, f, kw in prior_parses(rng, text):
+                if "_fault" in kw:             # a faulting input, parsed by the object under test (never judged)
+                    import changelog_faults as cf
+                    if cl is None:
+                        cl = Changelog()
+                    cf.do_fault(kw["_fault"], t, cl)
+                    continue
                 enc = kw.get("encoding", "utf-8")
                 src = make_source(t, f) if enc == "utf-8" else _latin1_source(t, f)
                 try:
@@ -656,11 +757,11 @@ def import_repo_modules():
     import debian.debian_support    # noqa: F401
 
 
-def strict_clean(text, aea, form="str"):
+def strict_clean(text, aea, form="str", cl=None):
     """strict parse that must neither raise nor warn -> (changelog, None) | (None, message)"""
     with capture() as c:
         try:
-            cl = new_changelog(text, aea, True, form)
+            cl = new_changelog(text, aea, True, form, cl=cl)
         except Exception as e:
             return None, "strict parsing failed (input form %s): %s: %s" % (form, type(e).__name__, e)
         w = c.parser
@@ -883,14 +984,48 @@ def mutate_handouts(cl, k=0):
     return None
 
 
-def c04_check(lines, contents, struct, alive=None, form="str", mutate=None):
+def used_object(text, pf):
+    """an object that parsed, leniently, a text WITH (pf) / WITHOUT a final newline before (Changelog!rs.pf)"""
+    from debian.changelog import Changelog
+    cl = Changelog()
+    t = OTHER_TEXT + text
+    with capture():
+        try:
+            cl.parse_changelog(t if pf else t[:-1], strict=False)
+        except Exception:               # never judged
+            pass
+    return cl
+
+
+REUSE_BASE = {"reuse_str": "str", "reused_text": "bytes", "reuse_list": "list", "reused_obj": "bytesio"}
+
+
+def c04_check(lines, contents, struct, alive=None, form="str", mutate=None, fault=None, reuse=None):
     """lines/contents: the concretized well-formed text; struct: the block structure TLC computed
     (which line is which block's header / change line / trailer); form: how the text is handed over;
     mutate (an int): afterwards the handed-out Version objects are edited in place and the same text is
-    parsed again (another form) and must expose what is written.  -> None or a message"""
+    parsed again (another form) and must expose what is written.
+    fault (a plan of changelog_faults): right before, a FAULTING input is parsed in this process -- never judged --
+    by another object or (fault["same"]) by the object under test; reuse = {"pf": bool}: the object under test was
+    used before (Changelog.tla, Mode "reuse": rs.carry, rs.pf).  -> None or a message"""
     from debian.debian_support import Version
     text = join(lines)
-    cl, msg = strict_clean(text, False, form)
+    cl0 = None
+    if reuse is not None:
+        cl0 = used_object(text, reuse["pf"])
+    if fault is not None:
+        import changelog_faults as cf
+        from debian.changelog import Changelog
+        if fault.get("same") and cl0 is None:
+            cl0 = Changelog()
+        cf.do_fault(fault, text, cl0 if fault.get("same") else None)
+    if cl0 is not None:
+        form = REUSE_BASE.get(form, form)
+    cl, msg = strict_clean(text, False, form, cl=cl0)
+    if msg and (fault is not None or reuse is not None):
+        import changelog_faults as cf
+        msg = "%s%s: %s" % ("on an object used before" if cl0 is not None else "on a new object",
+                            (", after a parse whose input failed (%s)" % cf.describe(fault)) if fault else "", msg)
     if msg:
         return msg
     s, err = fmt(cl)
@@ -1372,38 +1507,60 @@ def stress_case(rng, classes, struct, mode, big=False):
 HIST_NEG = [("BlockRenderCache", {"FormatIsCurrent"}), ("OlderBlocksMemo", {"FormatIsCurrent"}), ("InternedVersions", {"ExposedAsWritten"})]
 
 
-def reuse_cfg(bug="none"):
-    """Mode "reuse": the parse under test on an already used object (any leftover flag x form of this input)"""
+def reuse_cfg(bug="none", emit=False):
+    """Mode "reuse": the parse under test on an already used object (any leftover flag x form of this input), in a
+    process whose previous parse ended in any fault of the caller-supplied input (rs.carry)"""
     return """CONSTANTS
   Mode = "reuse"
   Classes = {}
   AEAs = {FALSE}
   MaxLines = 100
   MaxBlocks = 2
-  MaxBody = 2
+  MaxBody = %d
   MaxLead = 1
   MaxSep = 1
   Budget = 0
   MaxEdits = 0
   Bug = "%s"
-  Emit = FALSE
+  Emit = %s
 SPECIFICATION Spec
 INVARIANT BookkeepingOK
 INVARIANT NoWarning
 INVARIANT RoundTrip
 INVARIANT BlocksAsWritten
 INVARIANT ParseIsHistoryFree
+%s
 CHECK_DEADLOCK FALSE
-""" % bug
+""" % (1 if emit else 2, bug, "TRUE" if emit else "FALSE", "INVARIANT EmitReuse" if emit else "")
 
 
-def reuse_controls(ctx):
-    """design level: ParseIsHistoryFree holds; the sticky per-object flag violates it"""
-    r = ctx.tlc_must_hold("Changelog", reuse_cfg(), workers=1, want_tags=set(), java_opts=jopts(ctx))
-    n = ctx.tlc("Changelog", reuse_cfg("StickyParseFlag"), count=False, workers=1, want_tags=set(), java_opts=jopts(ctx))
-    if n.violated != "ParseIsHistoryFree":
-        raise core.MachineryError("spec-level negative control Bug=StickyParseFlag: expected ParseIsHistoryFree violated, TLC reports %r" % n.violated)
-    return {"reuse_states": r.distinct, "StickyParseFlag": n.violated}
+def reuse_controls(ctx, hold=True):
+    """design level: ParseIsHistoryFree holds (hold = False: the caller runs reuse_cases, the same invariants on the
+    emitting configuration); the sticky per-object flag and the per-process decoder tail violate it"""
+    out = {}
+    if hold:
+        r = ctx.tlc_must_hold("Changelog", reuse_cfg(), workers=1, want_tags=set(), java_opts=jopts(ctx))
+        out["reuse_states"] = r.distinct
+    for bug in ("StickyParseFlag", "DecoderTail"):
+        n = ctx.tlc("Changelog", reuse_cfg(bug), count=False, workers=1, want_tags=set(), java_opts=jopts(ctx))
+        if n.violated != "ParseIsHistoryFree":
+            raise core.MachineryError("spec-level negative control Bug=%s: expected ParseIsHistoryFree violated, TLC reports %r" % (bug, n.violated))
+        out[bug] = n.violated
+    return out
+
+
+def reuse_cases(ctx):
+    """the CASE lines of Mode "reuse" (one body line per block): complete well-formed text x rs.pf (what the object
+    under test kept of its earlier parse) x rs.f2 (str / bytes, str lines, BYTE lines) x rs.carry (how the previous
+    parse of the process ended: normally, or by one of the faults of the caller-supplied input) -> (cases, states)"""
+    r = ctx.tlc_must_hold("Changelog", reuse_cfg(emit=True), workers=1, want_tags={"CASE"}, java_opts=jopts(ctx))
+    cases = [c for c in r.printed.get("CASE", []) if isinstance(c, dict)]
+    if not cases or len(cases) != len(r.printed.get("CASE", [])):
+        raise core.MachineryError("reuse configuration printed %d CASE lines, %d parsed" % (len(r.printed.get("CASE", [])), len(cases)))
+    for c in cases:
+        if not c["wf"] or c["nw"] != 0 or c["sr"] or not c["intact"]:
+            raise core.MachineryError("reuse CASE outside the C04 domain: %r" % c)
+    return cases, r.distinct
 
 
 def norm_contents(contents):
@@ -1580,14 +1737,19 @@ def line_event(it, line):
 NO_DOC = dict(has=False)
 
 
-def record_parse_trace(lines, aea, wf, doc_every=0, form="str"):
+def record_parse_trace(lines, aea, wf, doc_every=0, form="str", faults=None):
     """prefix closure: the real parser's observable result for every prefix of the text, handed over in
-    the given input form"""
+    the given input form.  faults = {"<i>": plan of changelog_faults}: right before the parses of the prefix of i
+    lines a FAULTING input is parsed by another object in this process (never judged, not an event: the
+    specification keeps nothing of it -- Changelog!KeptTail)"""
     it = Intern()
     evs = []
     for i in range(1, len(lines) + 1):
         text = join(lines[:i])
         e = line_event(it, lines[i - 1])
+        if faults and str(i) in faults:
+            import changelog_faults as cf
+            cf.do_fault(faults[str(i)], join(lines))
         len_ = construct(text, aea=aea, strict=False, form=form)
         st = construct(text, aea=aea, strict=True, form=form)
         e["ok"] = len_.exc is None and st.exc in (None, "ChangelogParseError")
@@ -1611,7 +1773,7 @@ def record_parse_trace(lines, aea, wf, doc_every=0, form="str"):
                 e["rt"] = s == text
                 e["nf"] = fixpoint(cl, s) is None
         evs.append(e)
-    return dict(kind="parse", aea=aea, wf=wf, form=form_kind(form), lines=evs, text=list(lines), iform=form)
+    return dict(kind="parse", aea=aea, wf=wf, form=form_kind(form), lines=evs, text=list(lines), iform=form, faults=faults or {})
 
 
 def record_proc_trace(lines, aea, calls, form="str"):
@@ -1636,7 +1798,7 @@ def gen_single_defect(rng, maxlines=14):
     cls, lines, _c = gen_wellformed(rng, maxlines)
     cand = [i for i, c in enumerate(cls) if c in DEFECTS]
     i = rng.choice(cand)
-    t, _k = conc_line(rng, rng.choice(DEFECTS[cls[i]]))
+    t, _k = conc_line(rng, rng.choice(DEFECTS[cls[i]]), haz=rng.random() < 0.3)
     lines = list(lines)
     lines[i] = t
     if rng.random() < 0.3:
@@ -1652,9 +1814,9 @@ def random_calls(rng, lines):
     return [(rng.random() < 0.5, (not a0) if bare and rng.random() < 0.3 else a0) for _ in range(rng.choice([2, 3, 3, 4, 6]))]
 
 
-def conc_same(rng, classes, same, canonical=False, stress=False):
+def conc_same(rng, classes, same, canonical=False, stress=False, haz=None):
     """conc_text for a text in which TLC says that line i is the very same line as line same[i] (1-based)"""
-    lines, _c = conc_text(rng, classes, canonical=canonical, stress=stress)
+    lines, _c = conc_text(rng, classes, canonical=canonical, stress=stress, haz=haz)
     for i, j in enumerate(same):
         if j - 1 != i:
             lines[i] = lines[j - 1]
@@ -1724,12 +1886,18 @@ def gen_call(rng, cl, wf, stress=False):
             names += ["UnsetVersion", rng.choice(sorted(UNSET_OPS))]
         names += ["BSet", "BSet", "BSet", "BRest", "BRest", "ChAppend", "ChInsert", "ChDelete", "AddTrailing", "AddTrailing", "Fmt",
                   "MutVer", "MutVer", "Reparse"]
+        if wf:                  # (C04 domain) a faulting input is parsed by ANOTHER object of the process: changelog_faults
+            names += ["FaultParse"]
     else:
         names = [x for x in names if x != "SetVersionWS" and x not in UNSET_OPS]
     op = rng.choice(names)
     i = x = 0
     if op == "Reparse":
         return dict(op=op, i=0, x=0, arg=rng.choice(FORMS), how=0, fobs=False, fhow=0)
+    if op == "FaultParse":
+        import changelog_faults as cf
+        plan = cf.fault_plan(rng)
+        return dict(op=op, i=0, x=1 + cf.FAULT_KINDS.index(plan["kind"]), arg=plan, how=0, fobs=rng.random() < 0.5, fhow=rng.randrange(3))
     if op in EDIT_OPS:
         arg = conc_edit(rng, op)
         if wf and op == "AddBlank":
@@ -1764,6 +1932,10 @@ def call_event(it, cl, c, text=None, aea=False):
         err = ("EXC:" + o.exc) if o.exc else None
         if o.cl is not None:
             rp = proj_blocks(it, o.cl)
+    elif op == "FaultParse":            # never judged; the object of the history is not involved
+        import changelog_faults as cf
+        cf.do_fault(arg, text)
+        err = None
     elif op in EDIT_OPS:
         err = apply_edit(cl, op, arg, c["how"])
     else:
@@ -1776,7 +1948,7 @@ def call_event(it, cl, c, text=None, aea=False):
     elif op == "BRest":
         b = cl[i - 1]
         v = [it.rest(b.urgency_comment, list(b.other_pairs.items()))]       # other_pairs as the object shows them now
-    elif op in ("Fmt", "ChDelete", "MutVer", "Reparse"):
+    elif op in ("Fmt", "ChDelete", "MutVer", "Reparse", "FaultParse"):
         v = [0]
     elif op == "SetVersionWS":
         shown = ver_str(cl[0])
@@ -1811,6 +1983,9 @@ def call_event(it, cl, c, text=None, aea=False):
     return e
 
 
+STR_FORMS_AFTER_FAULT = ("str", "bytes", "stringio", "list")
+
+
 def record_edit_trace(rng, lines, aea, nops, wf=False, stress=False, form="str"):
     """parse `lines`, then nops random calls (gen_call); formatting is part of the history: after a
     call the changelog is formatted (str / bytes / write_to_open_file) only when the call says so"""
@@ -1822,8 +1997,12 @@ def record_edit_trace(rng, lines, aea, nops, wf=False, stress=False, form="str")
     t = dict(kind="edit", aea=aea, wf=wf, lines=evs, bl0=proj_blocks(it, cl), ops=[], text=list(lines), calls=[], iform=form)
     for k in range(nops):
         c = gen_call(rng, cl, wf, stress)
-        if c["op"] == "Reparse" and not lines:
+        if c["op"] in ("Reparse", "FaultParse") and not lines:
             continue
+        if t["calls"] and t["calls"][-1]["op"] == "FaultParse" and rng.random() < 0.7:
+            # right after the fault a NEW object parses the text of the history, mostly handed over as byte lines
+            import changelog_faults as cf
+            c = dict(op="Reparse", i=0, x=0, arg=rng.choice(cf.BYTE_LINE_FORMS + STR_FORMS_AFTER_FAULT), how=0, fobs=False, fhow=0)
         t["calls"].append(c)
         t["ops"].append(call_event(it, cl, c, join(lines), aea))
     return t
@@ -1832,7 +2011,7 @@ def record_edit_trace(rng, lines, aea, nops, wf=False, stress=False, form="str")
 def rerecord(trace):
     """re-execute a recorded trace on the current tree (for --replay)"""
     if trace["kind"] == "parse":
-        return record_parse_trace(trace["text"], trace["aea"], trace["wf"], form=trace.get("iform", "str"))
+        return record_parse_trace(trace["text"], trace["aea"], trace["wf"], form=trace.get("iform", "str"), faults=trace.get("faults"))
     if trace["kind"] == "proc":
         return record_proc_trace(trace["text"], trace["aea"], [tuple(c) for c in trace["calls"]], form=trace.get("iform", "str"))
     it = Intern()
@@ -1849,7 +2028,7 @@ def rerecord(trace):
 
 def strip_trace(t):
     """what TLC gets (concrete text and call arguments stay in the harness)"""
-    return {k: v for k, v in t.items() if k not in ("text", "calls", "iform", "plan")}
+    return {k: v for k, v in t.items() if k not in ("text", "calls", "iform", "plan", "faults")}
 
 
 # ------------------------------------------------------------------ text generators for the recorders
